@@ -171,6 +171,18 @@ Proof.
   - vm_compute. reflexivity.
 Qed.
 
+(* REFUTED (known findings D42, D43): the rewritten tail call (list Bounce ..) looks  *)
+(* its head up as a variable, so a parameter named list breaks the self tail call;     *)
+(* and the loop re-enters the function object that was entered, not the current         *)
+(* definition of the name                                                                *)
+Example C04_tail_call_is_recursion_refuted_list_variable :
+  ev0 60 "(defun my-len (list acc) (if (null list) acc (my-len (cdr list) (+ acc 1)))) (my-len '(1 2 3) 0)" = Err EUndef /\
+  ev0 60 "(defun my-len (l acc) (if (null l) acc (+ 0 (my-len (cdr l) (+ acc 1))))) (let ((list 5)) (my-len '(1 2 3) 0))" = Ok (Int 3).
+Proof. vm_compute. split; reflexivity. Qed.
+Example C04_tail_call_is_recursion_refuted_redefinition :
+  ev0 60 "(defun f43 (n) (if (> n 0) (f43 (- n 1)) 'old)) (setq g43 f43) (defun f43 (n) 'new) (funcall g43 2)" = Ok (Sym (s2t "old")).
+Proof. vm_compute. reflexivity. Qed.
+
 Check C04_only_tail_self_calls_rewritten : forall fuel name body body',
   mark_tail fuel name body = Ok body' -> mt_body name body body'.
 Check C04_trampoline_is_recursion : forall F f ps body pl,
